@@ -318,4 +318,8 @@ def run(model, R):
     # both close their argument with the double derivation of the object family (C01's closures are a dependency)
     from . import c01
     R.guard('WIRING', None, '_pair_with closures', c01.closure_rules, model, R)
+    R.guard('WIRING', None, 'Relation.__new__', c01.relation_new, model, R)
+    # a lattice loaded from an unordered serialisation is only the documented structure if the loaders forward raw (C06's rule)
+    from . import c06 as _c06
+    R.guard('ORDER', None, 'raw flag', _c06.raw_is_forwarded, model, R)
     return __doc__.strip()
